@@ -121,6 +121,12 @@ SeqPres ==
        [p |-> "seq", len |-> 2, es |-> <<IP("i8", 5), IP("i8", 127)>>], [p |-> "seq", len |-> 2, es |-> <<IP("i16", 1), IP("i16", -1)>>],
        [p |-> "seq", len |-> 2, es |-> <<IP("i16", 1), IP("i16", 256)>>], [p |-> "seq", len |-> 2, es |-> <<IP("i64", 1), IP("i64", -1)>>],
        [p |-> "seq", len |-> 2, es |-> <<IP("u16", 1), IP("u16", 255)>>], [p |-> "tuple", es |-> <<IP("i8", 1), IP("i8", -1)>>],
+       [p |-> "seq", len |-> 2, es |-> <<IP("u64", 1), IP("u64", 255)>>], [p |-> "seq", len |-> 2, es |-> <<IP("u64", 1), IP("u64", 256)>>],
+       [p |-> "seq", len |-> 2, es |-> <<IP("u32", 7), IP("u32", 256)>>],
+       [p |-> "seq", len |-> 2, es |-> <<[p |-> "i128", v |-> <<200, 0, 0, 0>> \o Z4], [p |-> "u128", v |-> <<255, 0, 0, 0>> \o Z4]>>],
+       [p |-> "seq", len |-> 2, es |-> <<[p |-> "i128", v |-> F4 \o F4], [p |-> "u128", v |-> <<1, 0, 0, 0>> \o Z4]>>],      \* -1 is not a byte
+       [p |-> "seq", len |-> 2, es |-> <<[p |-> "u128", v |-> <<0, 1, 0, 0>> \o Z4], [p |-> "u128", v |-> <<1, 0, 0, 0>> \o Z4]>>],   \* 65536 is not a byte
+       [p |-> "seq", len |-> 2, es |-> <<[p |-> "i128", v |-> Z4 \o <<1, 0, 0, 0>>], [p |-> "i128", v |-> <<1, 0, 0, 0>> \o Z4]>>],   \* 2^64 is not a byte
        [p |-> "seq", len |-> 3, es |-> <<U8(1), U8(2), U8(3)>>],
        [p |-> "seq", len |-> 3, es |-> <<U32(1), U32(2), U32(3)>>], [p |-> "seq", len |-> -1, es |-> <<U32(1), U32(2), U32(3)>>],
        [p |-> "seq", len |-> 2, es |-> <<U32(1), U32(2)>>], [p |-> "seq", len |-> -1, es |-> <<U32(1), U32(2), U32(3), U32(4)>>],
